@@ -1,8 +1,24 @@
 package main
 
+const mpPkg = "app/core/hydra/swamp/treasure/msgpackpatch"
+
 const v2pkg = "app/core/hydra/swamp/chronicler/v2"
 
 var Checks = []CheckDef{
+	{
+		ID: "C13", Title: "Structural patch matches its documented semantics",
+		Claim:   "bounded symbolic execution of the real msgpackpatch package (and of the msgpack library's decoder/encoder it calls, interpreted from source): (a) a condition on a numeric field against a numeric threshold, for every pair of the 10 numeric type codes + fixints with fully symbolic payloads and every comparator, is met exactly when the mathematical relation holds (NaN equal to nothing, unordered), a class mismatch is an error, a met condition without ops returns the body byte-identically; (b) INC for every (target code, delta code) pair with symbolic payloads keeps the target's type code and class, yields the sum wrapped to that width, keeps field order and the bytes of the untouched field; (c) every op kind that splices a value (SET existing/new/index, APPEND, PREPEND, MERGE, REMOVE_VAL, INC) with ARBITRARY value bytes of length 0..maxValue: a reported success always re-parses, a failure returns no result; (d) every sequence of nOps ops out of 24 (kind, path) combinations - existing, missing, auto-create, negative/out-of-range index, type-mismatch paths - with symbolic leaf values and symbolic MERGE keys on {a:x, l:[y,z], m:{k:w}} yields byte for byte the encoding of a reference document model written from the documented semantics (untouched bytes and field order kept) and fails as a whole exactly when the model says an op fails",
+		Trusted: "msgpack decoder/encoder are interpreted from the library source except its unsafe string casts (intrinsics); allocation sizes above 16 elements are one class in the arbitrary-bytes harness (the input is shorter than that, so every such read fails alike)",
+		Harnesses: []HarnessDef{
+			{Pkg: mpPkg, Func: "VerifC13Compare", Quick: map[string]int{}, Thorough: map[string]int{}, Covers: []string{"end"}},
+			{Pkg: mpPkg, Func: "VerifC13Inc", Quick: map[string]int{}, Thorough: map[string]int{}, Covers: []string{"end"}},
+			{Pkg: mpPkg, Func: "VerifC13Ops", Quick: map[string]int{"nOps": 2}, Thorough: map[string]int{"nOps": 3}, Covers: []string{"end"}},
+			{Pkg: mpPkg, Func: "VerifC13WellFormed", Quick: map[string]int{"maxValue": 3, "allocClassAbove": 16}, Thorough: map[string]int{"maxValue": 4, "allocClassAbove": 16}, Covers: []string{"end"}},
+		},
+		Assumptions: []string{"bodies of the stated shapes ({a: leaf}, {a: leaf, z: true}, {a: 1, l: [2]})", "value bytes up to maxValue"},
+		Stubs:       []string{"msgpack stringToBytes/bytesToString = safe conversions"},
+		Outside:     []string{"op sequences longer than nOps", "bodies beyond the stated shapes", "leaf values other than positive fixints in the sequence harness", "string/bytes/bool comparisons (msgpack.Unmarshal uses reflection)"},
+	},
 	{
 		Claim:   "bounded symbolic execution of the real v2 codec, write buffer, file writer and reader: every entry (symbolic opcode/key/payload bytes up to the stated lengths) round-trips through Serialize/Deserialize, every strict prefix of an encoding is rejected, every history of up to nOps WriteEntry/WriteEntries/Flush/Sync/Close+reopen steps with a symbolic block size (the solver decides where flushes fall) and symbolic key bytes (the solver decides aliasing) reloads to the last-writer-wins fold with the stored name and header counters, and keys at the uint16 boundary (0, 65535, 65536, 65537, 70000 bytes) are either rejected or read back identically",
 		Trusted: "Snappy = tagged identity, CRC32 = uninterpreted function, os = in-memory FS model (all validated by native replay of sampled paths against the real build); histories longer than nOps are outside the claim",
